@@ -20,11 +20,11 @@ P = {
  "C03": ("Writer output satisfies a declarative layout predicate written from the property text, and the layout determines the bytes; an executable layout checker proved against the predicate is run on the implementation's bytes.",
          "Independent AES = FIPS-197 specification of C16.",
          "Coq theorem (layout predicate) + proved-correct checker run on implementation output"),
- "C04": ("Truncation/extension: unconditional theorems on the model; byte damage / wrong key: reduction to a MAC forgery; exhaustive single-byte/prefix/suffix sweep on implementation and model.",
-         "partial: CBC-MAC unforgeability is cryptographic and is not assumed; the reduction theorem is what is proved.",
+ "C04": ("Appended bytes, every proper prefix (binary and text, incl. cuts inside a hex pair) and every single-byte replacement are rejected or content-preserving: unconditional theorems on the model for every invertible block function; wrong session key / multi-byte damage: reduction to a MAC forgery or a payload-MAC collision; exhaustive single-byte/prefix/suffix/key-bit sweep on implementation and model.",
+         "partial only for the different-session-key clause: that MACs under different keys differ is cryptographic and is not assumed; the reduction theorem is what is proved.",
          "Coq theorems + exhaustive damage sweep (model vs implementation)"),
- "C05": ("Reader accepts iff the declarative well-formedness predicate holds (both directions), content = fields; structured-edit correspondence with recomputed MACs.",
-         "",
+ "C05": ("Reader accepts iff the declarative layout predicate of C03 holds (both directions, MAC checking on and off, for arbitrary dec/mac and for the adapter), content = fields, re-serialisation is canonical; structured-edit correspondence (37 edits, singly and in pairs) with recomputed MACs.",
+         "One clause beyond the property's list is explicit: payloads tagged ENC=02 must be decryptable (multiples of 16 bytes for the adapter).",
          "Coq iff-theorem + correspondence on structured edits"),
  "C06": ("Stored payload = CBC ciphertext of the zero-padded blob; recovery up to declared length; fail-closed writer; every byte of the file is classified by origin; secret-substring scan on implementation output.",
          "'No secret appears in clear' is proved as a provenance statement (segments), the substring scan is search only.",
